@@ -225,7 +225,10 @@ func (dm *DMap) evictKeyWithLRU(e *env) error {
 	})
 
 	if len(items) == 0 {
-		return fmt.Errorf("nothing found to expire with LRU")
+		// The fragment is empty: there is nothing to evict, and nothing that occupies
+		// the room the new entry needs. MaxKeys and MaxInuse can be used at the same time,
+		// the first limit may have evicted the last entry.
+		return nil
 	}
 
 	sort.Slice(items, func(i, j int) bool { return items[i].LastAccess < items[j].LastAccess })
